@@ -102,6 +102,18 @@ Section PDEF.
         let t := match d with JArr l => join_texts l | _ => sprint d end in
         mkFrag (f_path f) (f_query f) (f_header f) (f_cookie f ++ [(pd_name p, t)])
     end.
+
+  (* ValidateParameter's default-setting step: a default stands in for a parameter the request does
+     not carry - not found, no value, no decoding error (a parameter that is present with an empty
+     text is found, and left as it is: the repair 0d07618 in /repo) *)
+  Definition set_param_default (pi64 pi32 : string -> option Z) (pf : string -> option float)
+             (skip : bool) (p : pdef) (f : fragment) : fragment :=
+    if skip then f else
+    match decode_param pi64 pi32 pf p f with
+    | DRes PNil false None =>
+        match param_default (pd_schema p) with Some d => populate p f d | None => f end
+    | _ => f
+    end.
 End PDEF.
 
 (* ---- the request body as a stream across ValidateRequest ---- *)
